@@ -47,7 +47,7 @@ MANIFEST = {
 
 _state = {}
 _seen = []
-BIG_PATIENCE = 10 ** 9
+BIG_PATIENCE = 1000  # far above any epoch count used here; not astronomically large, so that a change which allocates per unit of patience still terminates
 XCOLS = 2  # x[i, :] = i ; condition[i, :] = 100 + i  (two columns: a row torn apart column-wise becomes visible)
 COND_TAG = 100
 
@@ -77,7 +77,9 @@ def _setup():
         kd = key if jnp.issubdtype(key.dtype, jnp.integer) else jr.key_data(key)
         cc = jnp.zeros((x.shape[0], 0)) if condition is None else condition
         jax.debug.callback(cb, x, cc, kd, params.p, ordered=True)
-        return 0.0 * params.p + 1.0
+        # strictly decreasing in the number of updates made so far: no validation loss is ever fruitless, so the run is never stopped
+        # early whatever max_patience is (seeded change C15e tied the per-epoch keys to max_patience)
+        return 1.0 - 0.001 * params.p
 
     # jr.split(k, 2)[i] == jr.split(k, 3)[i]: the model's key paths do not record the fan-out
     k = jr.PRNGKey(12345)
@@ -132,12 +134,14 @@ def run_impl(case):
     try:
         d, _ = s["fit_to_data"](
             _root_key(case), s["M"](jnp.array(0.0)), x, condition=c, loss_fn=s["loss_fn"], max_epochs=case["epochs"],
-            max_patience=BIG_PATIENCE, batch_size=case["bs"], val_prop=case["val_prop"], optimizer=s["opt"],
+            max_patience=case.get("patience", BIG_PATIENCE), batch_size=case["bs"], val_prop=case["val_prop"], optimizer=s["opt"],
             return_best=False, show_progress=False,
         )
         final_p = int(d.p)
     except ZeroDivisionError:
         raised = "ZeroDivisionError"
+    except Exception as e:  # noqa: BLE001   anything else is a failure of a well-formed run (the oracle says so) / a model disagreement
+        raised = type(e).__name__
     s["jax"].effects_barrier()
     calls = [(p, kb, _decode(xa, 0), _decode(ca, COND_TAG)) for (p, kb, xa, ca) in _seen]
     _seen.clear()
@@ -369,6 +373,10 @@ def gen_cases(ctx):
         vp, bs = [(0.0, int(r.integers(1, 4))), (1.0, int(r.integers(1, 4))), (gen_val_prop(r, max(n, 2)), 0)][int(r.integers(3))]
         cases.append(dict(n=n, bs=bs, val_prop=float(vp), has_cond=bool(r.integers(2)), epochs=int(r.integers(0, 3)),
                           seed=int(r.integers(0, 2 ** 31 - 1)), typed_key=False))
+    # max_patience: the loss never stops improving, so every value must give the same run
+    for c in cases:
+        if r.random() < 0.5:
+            c["patience"] = int([0, 1, 1, 2, 2, 3, 5, 10][int(r.integers(8))])
     # array dtypes: a fifth of the cases with integer x and/or integer condition (jit cache: one more bucket per combination)
     for c in cases:
         if r.random() < 0.2:
@@ -631,7 +639,7 @@ def run(ctx):
         "jr.permutation(key, a) permutes axis 0 of a by the permutation jr.permutation(key, len(a)) (the model is fed the latter; compared on every case)",
         "jr.split yields distinct keys along distinct paths (theorem C15_fresh_keys is about paths; observed keys are checked pairwise distinct)",
         "a loss call is a gradient step iff the counter of the counting optimiser advanced after it",
-        "max_patience is effectively infinite: the stopping rule is property C16's; an early stop only truncates the trace",
+        "max_patience varies (0..10 and 1000) under a loss that improves with every update, so no run stops early: the stopping rule is property C16's; an early stop only truncates the trace",
         "n_train = n - round(val_prop*n) (float product, round-half-even) is glue: compared with the implementation on a grid incl. rounding ties, not proved",
     ]
 
